@@ -49,38 +49,28 @@ corrupted in transit, senders or receivers failing or being killed before / afte
 between the phases, any number of restarts, repaired or pinned receiver — every record and every
 shard file exists complete and byte-identical on at least one node, and every copy outside the
 owner is a complete original.
-Hypotheses: the checksum is collision-free and `FileHash("") ≠ 0` (`SumOK`); `Init`. -/
+Hypotheses: the checksum is collision-free and `FileHash("") ≠ 0` (`SumOK`); `Init` (one server-list
+change; every node that holds something is started — `cfg.up`; nodes that are not started take no
+step and are sent nothing). -/
 theorem C14_no_loss (cfg : Cfg N K) (hs : SumOK cfg) (ro fo : K → Option Content) (s0 s : St N K)
-    (h0 : Init ro fo s0) (hr : Reachable cfg s0 s) :
-    (∀ k v, ro k = some v → ∃ n, s.recs n k = some v) ∧
-    (∀ k c, fo k = some c → ∃ n, s.files n k = some c) ∧
+    (h0 : Init cfg ro fo s0) (hr : Reachable cfg s0 s) :
+    (∀ k v, ro k = some v → ∃ n, cfg.up n = true ∧ s.recs n k = some v) ∧
+    (∀ k c, fo k = some c → ∃ n, cfg.up n = true ∧ s.files n k = some c) ∧
     (∀ n k v, s.recs n k = some v → ro k = some v) ∧
-    (∀ n k c, s.files n k = some c → n ≠ cfg.fowner k → fo k = some c) :=
-  let i := inv_reachable hs (h0.inv cfg) hr
-  ⟨i.r2, i.f2, i.r1, i.f1⟩
+    (∀ n k c, cfg.up n = true → s.files n k = some c → n ≠ cfg.fowner k → fo k = some c) :=
+  let i := inv_reachable hs h0.inv hr
+  ⟨i.r2, i.f2, (strict_reachable hs h0.inv h0.strict hr).r, fun n k c hu hc hn => i.f1 n k c hu hn hc⟩
 
 /-- A source copy is removed only after the destination confirmed a complete copy: whenever the local
 delete of a record / the removal of a shard directory is enabled, the owner is another node and
 holds the identical record / a file with the original content. -/
 theorem C14_remove_only_after_confirm (cfg : Cfg N K) (hs : SumOK cfg) (ro fo : K → Option Content)
-    (s0 s : St N K) (h0 : Init ro fo s0) (hr : Reachable cfg s0 s) :
+    (s0 s : St N K) (h0 : Init cfg ro fo s0) (hr : Reachable cfg s0 s) :
     (∀ src batch, enabled cfg s (.rdelete src batch) = true → ∀ k ∈ batch,
         src ≠ cfg.owner k ∧ (ro k).isSome ∧ s.recs (cfg.owner k) k = ro k) ∧
     (∀ src k, enabled cfg s (.fremove src k) = true →
-        src ≠ cfg.fowner k ∧ (fo k).isSome ∧ s.files (cfg.fowner k) k = fo k ∧ s.files src k = fo k) := by
-  have i := inv_reachable hs (h0.inv cfg) hr
-  constructor
-  · intro src batch hen k hk
-    simp only [enabled, List.all_eq_true] at hen
-    obtain ⟨a, b⟩ := i.r3 src k (hen k hk)
-    obtain ⟨v, hv⟩ := Option.isSome_iff_exists.mp b
-    have := i.r1 _ _ _ hv
-    exact ⟨a, by simp [this], by rw [hv, this]⟩
-  · intro src k hen
-    simp only [enabled, decide_eq_true_eq] at hen
-    obtain ⟨a, b, c, d⟩ := i.f3 src k hen
-    obtain ⟨v, hv⟩ := Option.isSome_iff_exists.mp b
-    exact ⟨a, d, c, by rw [hv, i.f1 _ _ _ hv a]⟩
+        src ≠ cfg.fowner k ∧ (fo k).isSome ∧ s.files (cfg.fowner k) k = fo k ∧ s.files src k = fo k) :=
+  remove_only_after_confirm (inv_reachable hs h0.inv hr)
 
 /-! ## convergence -/
 
@@ -88,10 +78,11 @@ theorem C14_remove_only_after_confirm (cfg : Cfg N K) (hs : SumOK cfg) (ro fo : 
 size > 0, collision-free checksum, number of nodes, and every history of interrupted rounds. -/
 theorem C14_converges (cfg : Cfg N K) (hs : SumOK cfg) (hcs : 0 < cfg.cs) (htr : cfg.trunc0 = true) :
     Converges cfg := by
-  intro ro fo nodes rkeys fkeys order s0 s hne hcov h0 hr hall
-  have hg : Good cfg fo := ⟨hs, hcs, htr, hne⟩
-  obtain ⟨r1, r2, r3, r4, _⟩ := round_spec hg hcov s0 (h0.inv cfg) order s hr
-  have i := inv_reachable hs (h0.inv cfg) r1
+  intro ro fo nodes rkeys fkeys order s0 s hne hfd hcov h0 hr hord hall
+  have hg : Good cfg fo := ⟨hs, hcs, htr, hne, hfd⟩
+  obtain ⟨r1, r2, r3, r4, _⟩ := round_spec hg hcov s0 h0.inv order s hord hr
+  have i := inv_reachable hs h0.inv r1
+  have st := strict_reachable hs h0.inv h0.strict r1
   refine ⟨⟨?_, ?_⟩, fun n hn => (r2 n hn).1⟩
   · -- records
     have clean : ∀ n k, n ≠ cfg.owner k → (round cfg nodes rkeys fkeys order s).recs n k = none := by
@@ -109,9 +100,9 @@ theorem C14_converges (cfg : Cfg N K) (hs : SumOK cfg) (hcs : 0 < cfg.cs) (htr :
       | none =>
         cases h : (round cfg nodes rkeys fkeys order s).recs n k with
         | none => rfl
-        | some v => have := i.r1 _ _ _ h; rw [hro] at this; cases this
+        | some v => have := st.r _ _ _ h; rw [hro] at this; cases this
       | some v =>
-        obtain ⟨m, hm⟩ := i.r2 k v hro
+        obtain ⟨m, _, hm⟩ := i.r2 k v hro
         by_cases em : m = cfg.owner k
         · rw [e, ← em]; exact hm
         · rw [clean m k em] at hm; cases hm
@@ -132,9 +123,9 @@ theorem C14_converges (cfg : Cfg N K) (hs : SumOK cfg) (hcs : 0 < cfg.cs) (htr :
       | none =>
         cases h : (round cfg nodes rkeys fkeys order s).files n k with
         | none => rfl
-        | some v => have := i.f5 n k (by simp [h]); rw [hfo] at this; cases this
+        | some v => have := st.f n k (by simp [h]); rw [hfo] at this; cases this
       | some c =>
-        obtain ⟨m, hm⟩ := i.f2 k c hfo
+        obtain ⟨m, _, hm⟩ := i.f2 k c hfo
         by_cases em : m = cfg.fowner k
         · rw [e, ← em]; exact hm
         · rw [clean m k em] at hm; cases hm
@@ -157,9 +148,132 @@ example : Gen.C14.checksumCond = "args.ChunkIndex > 0 && len(args.ChunkData) == 
 example : Gen.C14.sendOrder = ["send-chunk", "check-bytes-written", "local-checksum", "compare-checksum", "remove-source"] := by decide
 example : Gen.C14.recOrder = ["send-records", "compare-count", "delete-local"] := by decide
 example : Gen.C14.deleteRange = "req.KeyValues" := by decide
+/-- the receiver of phase 1 stores every pair of the request unconditionally (label `rsend` overwrites
+whatever the destination holds) and counts exactly the pairs it stored -/
+example : Gen.C14.recvRange = "args.KeyValues" := by decide
+example : Gen.C14.recvLoop = ["put-or-return", "count"] := by decide
+example : Gen.C14.recvPut = "[]byte(key),value" := by decide
+example : Gen.C14.recvReply = "reply.Count=count" := by decide
 example : Gen.C14.shardRouteKey = "shardId := filepath.Base(filepath.Dir(path))" := by decide
 example : Gen.C14.userRouteKey = "userId := strings.Split(string(k),DBDELIMITER)[0]" := by decide
 example : Gen.C14.phaseOrder = ["syncUserCollections", "syncShards"] := by decide
+
+/-! ## histories over several server lists
+
+The list changes any number of times (also back to an earlier list), rounds are interrupted and left
+incomplete, nodes are switched off with what their disks hold and come back later, and between the
+rounds the cluster serves: records and shard files change (`wrec` / `wfile`: shard id appended,
+points inserted, collection deleted and created again).  Copies on different nodes may then DIFFER;
+the original is the content as last written at the routing owner (`w.ro` / `w.fo`).
+`WReach` admits exactly the changes of the list that are `Safe` (an out-of-date copy on a node that
+is started sits at the new owner; the current content is on a started node) and client writes
+while no started node other than the owner holds the key (`QuietR` / `QuietF`, which
+`C14_epochs_converges` establishes after every failure-free round). -/
+
+/-- In EVERY world of EVERY history the current version of every record and of every shard file
+exists byte-identical on a started node, and every copy on a started node other than the routing
+owner is the current version (an older copy can only sit at the owner or on a switched-off node). -/
+theorem C14_epochs_no_loss (w0 w : World N K) (hs : SumOK w0.cfg) (h0 : WInit w0) (hr : WReach w0 w) :
+    (∀ k v, w.ro k = some v → ∃ n, w.cfg.up n = true ∧ w.st.recs n k = some v) ∧
+    (∀ k c, w.fo k = some c → ∃ n, w.cfg.up n = true ∧ w.st.files n k = some c) ∧
+    (∀ n k v, w.cfg.up n = true → n ≠ w.cfg.owner k → w.st.recs n k = some v → w.ro k = some v) ∧
+    (∀ n k c, w.cfg.up n = true → n ≠ w.cfg.fowner k → w.st.files n k = some c → w.fo k = some c) :=
+  let i := (winv_reach hs h0 hr).1
+  ⟨i.r2, i.f2, i.r1, i.f1⟩
+
+/-- In every world of every history: whenever the local delete of a record / the removal of a shard
+directory is enabled, the owner is another node and holds the CURRENT record / file — not merely
+some copy with the same key. -/
+theorem C14_epochs_remove_only_after_confirm (w0 w : World N K) (hs : SumOK w0.cfg) (h0 : WInit w0)
+    (hr : WReach w0 w) :
+    (∀ src batch, enabled w.cfg w.st (.rdelete src batch) = true → ∀ k ∈ batch,
+        src ≠ w.cfg.owner k ∧ (w.ro k).isSome ∧ w.st.recs (w.cfg.owner k) k = w.ro k) ∧
+    (∀ src k, enabled w.cfg w.st (.fremove src k) = true →
+        src ≠ w.cfg.fowner k ∧ (w.fo k).isSome ∧ w.st.files (w.cfg.fowner k) k = w.fo k ∧
+        w.st.files src k = w.fo k) :=
+  remove_only_after_confirm (winv_reach hs h0 hr).1
+
+/-- From every world of every history one failure-free round (every started node that holds
+something runs `Sync`, any order) leaves the current version of every record and shard file at its
+routing owner, byte-identical, and on no other started node; no `Sync` fails; client writes are
+enabled again and the result continues the history.
+Hypotheses on the first world: `SumOK`, chunk size > 0, truncating receiver, non-empty shard files;
+on the world: the lists cover what exists, the owners run. -/
+theorem C14_epochs_converges (w0 w : World N K) (hs : SumOK w0.cfg) (hcs : 0 < w0.cfg.cs)
+    (htr : w0.cfg.trunc0 = true) (hne : ∀ k c, w0.fo k = some c → c ≠ []) (h0 : WInit w0) (hr : WReach w0 w)
+    (nodes : List N) (rkeys fkeys : List K) (order : List N)
+    (hcov : Covers w.cfg w.ro w.fo nodes rkeys fkeys)
+    (hfd : ∀ k, (w.fo k).isSome → w.cfg.up (w.cfg.fowner k) = true)
+    (hord : ∀ n ∈ order, w.cfg.up n = true)
+    (hall : ∀ n k, w.cfg.up n = true → (w.st.recs n k).isSome ∨ (w.st.files n k).isSome → n ∈ order) :
+    let w' : World N K := { w with st := round w.cfg nodes rkeys fkeys order w.st }
+    PlacedW w.cfg w.ro w.fo w'.st ∧ (∀ n ∈ order, w'.st.failed n = false) ∧
+      (∀ k, w.cfg.up (w.cfg.owner k) = true → QuietR w' k) ∧
+      (∀ k, w.cfg.up (w.cfg.fowner k) = true → QuietF w' k) ∧ WReach w0 w' := by
+  obtain ⟨i, c1, c2, c3⟩ := winv_reach hs h0 hr
+  have hg : Good w.cfg w.fo :=
+    ⟨sumOK_congr c3 hs, by rw [c1]; exact hcs, by rw [c2]; exact htr, wreach_nonempty hne hr, hfd⟩
+  obtain ⟨p, q, _⟩ := round_placed hg hcov w.st i order hord hall
+  obtain ⟨r1, _⟩ := round_spec hg hcov w.st i order w.st hord .init
+  exact ⟨p, q, fun k hk => ⟨hk, fun n hn hno => p.rnone n k hn hno⟩,
+    fun k hk => ⟨hk, fun n hn hno => p.fnone n k hn hno⟩, wreach_sync hr r1⟩
+
+/-- Which changes of the list are `Safe`: in every world of every history it suffices that running
+nodes keep running, that a node which comes back holds out-of-date copies only of keys the new
+routing assigns to it (it received them under the same list before the change was rolled back:
+rendezvous hashing gives the same owner for the same list), that the owner does not change where a
+running owner holds an out-of-date copy, and that at most one started non-owner holds a shard. -/
+theorem C14_epochs_safe_change (w0 w : World N K) (hs : SumOK w0.cfg) (h0 : WInit w0) (hr : WReach w0 w)
+    (o f : K → N) (u : N → Bool)
+    (hstay : ∀ n, w.cfg.up n = true → u n = true)
+    (hbackR : ∀ n k v, u n = true → w.cfg.up n = false → w.st.recs n k = some v → w.ro k ≠ some v → n = o k)
+    (hownR : ∀ k v, u (w.cfg.owner k) = true → w.st.recs (w.cfg.owner k) k = some v → w.ro k ≠ some v →
+      o k = w.cfg.owner k)
+    (hbackF : ∀ n k c, u n = true → w.cfg.up n = false → w.st.files n k = some c → w.fo k ≠ some c → n = f k)
+    (hownF : ∀ k c, u (w.cfg.fowner k) = true → w.st.files (w.cfg.fowner k) k = some c → w.fo k ≠ some c →
+      f k = w.cfg.fowner k)
+    (hfc : ∀ n n' k, u n = true → u n' = true → n ≠ f k → n' ≠ f k →
+      (w.st.files n k).isSome → (w.st.files n' k).isSome → n = n') :
+    Safe w o f u ∧ WReach w0 (wstep (.reconf o f u) w) :=
+  have hsafe := safe_of_winv (winv_reach hs h0 hr).1 o f u hstay hbackR hownR hbackF hownF hfc
+  ⟨hsafe, .reconf o f u hr hsafe⟩
+
+/-- non-vacuity of `C14_epochs_safe_change`: applying the grown list again in the history of
+`Witness.lean` — node 2 comes back with the older copy of record 0, which the grown list assigns to it -/
+example : Safe (eW 7) (fun _ => 2) (fun _ => 0) (fun _ => true) :=
+  (C14_epochs_safe_change eW0 (eW 7) eSumOK eInit eReach7
+    (fun _ => 2) (fun _ => 0) (fun _ => true) (fun _ _ => rfl)
+    (fun n k v _ hd _ _ => by
+      have : ∀ n : eN, (eW 7).cfg.up n = false → n = 2 := by decide
+      exact this n hd)
+    (fun k v _ hv hne => by
+      have : ∀ k : eK, (eW 7).st.recs ((eW 7).cfg.owner k) k = (eW 7).ro k := by decide
+      rw [this k] at hv
+      exact absurd hv hne)
+    (fun n k c _ hd hc _ => by
+      have h2 : ∀ n : eN, (eW 7).cfg.up n = false → n = 2 := by decide
+      have hn : ∀ k : eK, (eW 7).st.files 2 k = none := by decide
+      rw [h2 n hd, hn k] at hc
+      cases hc)
+    (fun _ _ _ _ _ => rfl)
+    (by decide)).1
+
+/-- non-vacuity: the history of `Witness.lean` (grow, sender killed between send and delete, rolled back
+with the new node switched off, the record changes, grow again) is a history in the sense of
+`WReach`, the older copy `[1]` is still on node 2 when the list grows again … -/
+example : WReach eW0 (eW 8) := eReach
+example : (eW 8).st.recs 2 0 = some [1] ∧ (eW 8).st.recs 0 0 = some [1, 9] ∧ (eW 8).ro 0 = some [1, 9] := by decide
+/-- … and the round puts the CURRENT record at node 2 (the receiver overwrites what it holds) -/
+example : (round (eW 8).cfg [0, 1, 2] [0] [1] [2, 0, 1] (eW 8).st).recs 2 0 = some [1, 9] :=
+  (C14_epochs_converges eW0 (eW 8) eSumOK (by decide) rfl (by decide) eInit eReach [0, 1, 2] [0] [1] [2, 0, 1]
+    eCovers (by decide) (by decide) (by decide)).1.rown 0 [1, 9] (by decide)
+example : (round (eW 8).cfg [0, 1, 2] [0] [1] [2, 0, 1] (eW 8).st).recs 0 0 = none := by decide
+/-- The hypothesis `Safe` of a list change cannot be dropped — this is how `Sync` is written, not a
+defect of one line: if node 2 is started with its older copy while node 0 (which holds the current
+record) is the owner, node 2 ships `[1]` as if it were current and the record `[1,9]` is gone. -/
+example : safeB (eW 7) (fun _ => 0) (fun _ => 0) (fun _ => true) [0, 1, 2] [0] [1] = false := by decide
+example : (round eWbad.cfg [0, 1, 2] [0] [1] [2, 0, 1] eWbad.st).recs 0 0 = some [1] ∧
+    (round eWbad.cfg [0, 1, 2] [0] [1] [2, 0, 1] eWbad.st).recs 2 0 = none ∧ eWbad.ro 0 = some [1, 9] := by decide
 
 /-! ## the pinned receiver (no truncation): convergence is false -/
 
@@ -168,12 +282,13 @@ at chunk ≥ 1, or a transfer whose source removal was interrupted), every later
 sender fails ("checksum mismatch"), for ever: after `r+1` restarts the sender has failed, still holds
 the file, and the left-over has grown to `|j| + (r+1)·|c|` symbols. -/
 theorem C14_pinned_stuck (cfg : Cfg N K) (hs : SumOK cfg) (htr : cfg.trunc0 = false) (hcs : 0 < cfg.cs)
-    (n : N) (k : K) (c j : Content) (hne : n ≠ cfg.fowner k) (hc : c ≠ []) (hj : j ≠ []) (s : St N K)
+    (n : N) (k : K) (c j : Content) (hne : n ≠ cfg.fowner k) (hus : cfg.up n = true)
+    (huo : cfg.up (cfg.fowner k) = true) (hc : c ≠ []) (hj : j ≠ []) (s : St N K)
     (hf : s.files n k = some c) (hd : s.files (cfg.fowner k) k = some j) (r : Nat) :
     (retries cfg n k (r + 1) s).failed n = true ∧ (retries cfg n k (r + 1) s).files n k = some c ∧
     ∃ j', j' ≠ [] ∧ j'.length = j.length + (r + 1) * c.length ∧
       (retries cfg n k (r + 1) s).files (cfg.fowner k) k = some j' :=
-  retries_pinned cfg hs htr hcs n k c hne hc r j s hj hf hd
+  retries_pinned cfg hs htr hcs n k c hne hus huo hc r j s hj hf hd
 
 /-- after the interruption the owner holds the partial file `[1,2]`; with the pinned receiver the
 retry appends `[1,2,3]` to it, the sender's `Sync` fails and the shard stays where it was -/
@@ -192,8 +307,8 @@ theorem C14_converges_pinned_false :
   refine ⟨wCfg false, wSumOK false, by decide, rfl, ?_⟩
   intro h
   have := (h wRo wFo [0, 1] [5] [7] [0, 1] wS0 (wS1 false)
-    wNonempty
-    (wCovers false) wInit (wReach false) (wHolders false)).2 0 (by simp)
+    wNonempty (fun _ _ => rfl)
+    (wCovers false) (wInit false) (wReach false) (fun _ _ => rfl) (wHolders false)).2 0 (by simp)
   have hf : (round (wCfg false) [0, 1] [5] [7] [0, 1] (wS1 false)).failed 0 = true := by decide
   rw [hf] at this
   cases this
@@ -202,10 +317,10 @@ theorem C14_converges_pinned_false :
 the repaired receiver -/
 example : Placed (wCfg true) wRo wFo (round (wCfg true) [0, 1] [5] [7] [0, 1] (wS1 true)) :=
   (C14_converges (wCfg true) (wSumOK true) (by decide) rfl wRo wFo [0, 1] [5] [7] [0, 1] wS0 (wS1 true)
-    wNonempty
-    (wCovers true) wInit (wReach true) (wHolders true)).1
+    wNonempty (fun _ _ => rfl)
+    (wCovers true) (wInit true) (wReach true) (fun _ _ => rfl) (wHolders true)).1
 example : ∃ n, (wS1 false).files n 7 = some [1, 2, 3] :=
-  (C14_no_loss (wCfg false) (wSumOK false) wRo wFo wS0 (wS1 false) wInit (wReach false)).2.1 7 _ (by decide)
+  (C14_no_loss (wCfg false) (wSumOK false) wRo wFo wS0 (wS1 false) (wInit false) (wReach false)).2.1 7 _ (by decide) |>.imp fun _ h => h.2
 
 /-! ## outside the property: the server list changes AGAIN before an interrupted move was completed
 
@@ -229,6 +344,7 @@ example : (w2S false).files 2 7 = some [1, 2, 3, 1, 2] ∧ (w2S false).files 0 7
 mismatch), repaired receiver or not.  Not reachable through the shard manager: a bbolt file is never
 empty; hence the hypothesis `c ≠ []` of `Converges`. -/
 theorem C14_empty_file_never_moves (cfg : Cfg N K) (hs : SumOK cfg) (n : N) (k : K) (hne : n ≠ cfg.fowner k)
+    (hus : cfg.up n = true) (huo : cfg.up (cfg.fowner k) = true)
     (s : St N K) (hf : s.files n k = some []) :
     (retry cfg n k s).failed n = true ∧ (retry cfg n k s).files n k = some [] := by
   unfold retry syncFile
@@ -238,12 +354,12 @@ theorem C14_empty_file_never_moves (cfg : Cfg N K) (hs : SumOK cfg) (n : N) (k :
   have hf' : (clearVolatile s n false).files n k = some [] := hf
   rw [hf']
   simp only
-  rw [if_neg (by simp [noFault])]
+  rw [if_neg (by simp [noFault, huo])]
   have hch : chunks cfg.cs [] = [] := by simp [chunks, chunksFuel]
   rw [hch]
   simp only [List.length_nil, sendFrom]
   rw [if_neg (by simp [noFault])]
-  rw [step_ffinal_empty_eq cfg hs _ n k hf' (by simp [clearVolatile, progress]) hne]
+  rw [step_ffinal_empty_eq cfg hs _ n k hf' (by simp [clearVolatile, progress]) hne hus huo]
   unfold step
   rw [show enabled cfg _ (.fremove n k) = false from by simp [enabled, clearVolatile]]
   simp only [Bool.false_eq_true, if_false]
